@@ -286,7 +286,7 @@ def chp_physics(prop, tier, seed):
         tar = rng.choice([0, 0, 1, 2])
         tao = 0 if tar else rng.choice([1, 2])
         cases.append(dict(T=T, seed=rng.randint(0, 9999), ramp=rng.choice([None, 1.5, 2.]), mr=rng.choice([0, 2, 3]), md=rng.choice([0, 2]), tar=tar, tao=tao,
-                          last=(rng.choice([1., 2., 3.]) if tar else 0.), order=rng.random() < .5, heat=rng.choice([.5, 1.])))
+                          last=(rng.choice([1., 2., 3.]) if tar else 0.), order=rng.random() < .5, heat=rng.choice([.5, 1.]), conv_series=rng.random() < .3))
     return dict(bounded=run_cases(sc.check_chp_physics, cases, 'optimised CHP (power, heat, fuel nodes; ramp, runtime/downtime, initial state, last dispatch, start fuel, running consumption, heat share) in a 5-asset portfolio with positive/negative power prices: every clause of the statement evaluated on the MIP solution and on the reported fuel dispatch',
                                   'hourly grids of 4-7 steps', 40 if tier == 'quick' else 300))
 
